@@ -35,7 +35,9 @@ type TransportInput struct {
 	Behaviours []Behaviour `json:"behaviours"`
 	Frames     bool        `json:"frames"` // run the frame cases (real libp2p streams over mocknet)
 	FramesOnly bool        `json:"frames_only"`
-	Names      int         `json:"names"` // random peer id pairs for the channel-name check
+	Names      int         `json:"names"`     // random peer id pairs for the channel-name check
+	Flows      []Behaviour `json:"flows"`     // behaviours of spec/TransportFlow.tla (publishes against a reader that stalls)
+	FlowUnit   int         `json:"flow_unit"` // messages of the real adapter per message of the model (real channel size / Cap)
 }
 
 // ---------------------------------------------------------------------------
@@ -585,6 +587,111 @@ func (r *trRun) frames() {
 	}
 }
 
+// flow replays a behaviour of spec/TransportFlow.tla on the real pubsubcoreapi adapter: every Publish of the
+// model is a burst of FlowUnit messages by that peer, every Read consumes FlowUnit messages; Forward is the
+// adapter's own goroutine and is not gated (the Sim specification takes it as soon as it is enabled).
+func (r *trRun) flow(b Behaviour) {
+	ctx, cancel := context.WithCancel(context.Background())
+	defer cancel()
+	unit := r.in.FlowUnit
+	net := &sNet{subs: map[string][]*sNodeSub{}}
+	ids := map[string]peer.ID{"me": newPeerID("me"), "p1": newPeerID("p1"), "p2": newPeerID("p2"), "p3": newPeerID("p3")}
+	me := &sNode{net: net, id: ids["me"]}
+	others := map[string]*sNode{}
+	for _, p := range []string{"p1", "p2", "p3"} {
+		others[p] = &sNode{net: net, id: ids[p]}
+	}
+	ps := pubsubcoreapi.NewPubSub(&sAPI{n: me}, me.id, time.Hour, zap.NewNop(), nil)
+	topic, err := ps.TopicSubscribe(ctx, "flow")
+	if err != nil {
+		r.res.Inconclusive = append(r.res.Inconclusive, b.ID+": "+err.Error())
+		return
+	}
+	msgCh, err := topic.WatchMessages(ctx)
+	if err != nil {
+		r.res.Inconclusive = append(r.res.Inconclusive, b.ID+": "+err.Error())
+		return
+	}
+	r.res.Behaviours++
+	expected := []string{} // payloads of remote peers in publication order
+	read := 0
+	n := 0
+	take := func(si int, k int) bool {
+		for i := 0; i < k; i++ {
+			select {
+			case m, ok := <-msgCh:
+				if !ok {
+					r.violate(si, "message", "the adapter closed its message channel", nil, nil)
+					return false
+				}
+				r.res.Comparisons++
+				if read >= len(expected) {
+					r.violate(si, "message", "unexpected extra delivery (own message or duplicate)", nil, string(m.Content))
+					return false
+				}
+				if string(m.Content) != expected[read] {
+					r.violate(si, "message", fmt.Sprintf("delivery %d is not the next payload published by a remote peer (lost, duplicated or reordered)", read+1), expected[read], string(m.Content))
+					return false
+				}
+				read++
+			case <-time.After(3 * time.Second):
+				r.violate(si, "message", fmt.Sprintf("payload %d of %d published by remote peers was never delivered to a reader that had stalled", read+1, len(expected)), expected[read:min(read+3, len(expected))], nil)
+				return false
+			}
+		}
+		return true
+	}
+	for si, st := range b.Steps {
+		switch st.Action {
+		case "Init":
+			continue
+		case "Forward":
+		case "Publish", "SPublish":
+			p := asStr(st.Args[0])
+			node := me
+			if p != "me" {
+				node = others[p]
+			}
+			for i := 0; i < unit; i++ {
+				n++
+				payload := fmt.Sprintf("%s-%06d", p, n)
+				_ = node.Publish(ctx, "flow", []byte(payload))
+				if p != "me" {
+					expected = append(expected, payload)
+				}
+			}
+		case "Read", "SRead":
+			if !take(si, unit) {
+				return
+			}
+		}
+		r.res.Steps++
+		r.res.Stats["action_"+st.Action]++
+		if si+1 < len(b.Steps) && b.Steps[si+1].Action == "Forward" {
+			continue // the model has not let the adapter's goroutine run yet
+		}
+		// let the adapter's goroutine forward what it can: the channel holds what the model says
+		want := len(asList(st.State["chan"])) * unit
+		deadline := time.Now().Add(2 * time.Second)
+		for len(msgCh) != want && time.Now().Before(deadline) {
+			time.Sleep(200 * time.Microsecond)
+		}
+		if len(msgCh) != want {
+			r.res.note("%s step %d %s: %d messages wait in the adapter's channel, the model says %d", b.ID, si, st.Action, len(msgCh), want)
+		}
+	}
+	// the reader drains: everything remote peers published, once, in order, and nothing else
+	if !take(-1, len(expected)-read) {
+		return
+	}
+	select {
+	case m := <-msgCh:
+		r.violate(-1, "message", "unexpected extra delivery (own message or duplicate)", nil, string(m.Content))
+	case <-time.After(3 * time.Millisecond):
+	}
+	r.res.Stats["flow_messages"] += len(expected)
+}
+
 func transportCmd(args []string) int {
 	in := &TransportInput{}
 	if len(args) < 2 || readJSON(args[0], in) != nil {
@@ -599,6 +706,10 @@ func transportCmd(args []string) int {
 			r.behaviour(b)
 		}
 		r.oneOnOne()
+		for _, b := range in.Flows {
+			r.bid = b.ID
+			r.flow(b)
+		}
 	}
 	if in.Frames || in.FramesOnly {
 		r.frames()
